@@ -79,6 +79,7 @@ def _cases(draw, tier):
         b, feats = G.general_program(draw, cfg, max_steps=24, disable=NOLOCAL)
         split = split_items(draw, b.items)
         return {'kind': kind, 'isa': cfg, 'flat': b.items, 'split': split, 'lo': b.lo, 'links': draw(st.integers(0, 7)),
+                'subdir': draw(st.sampled_from([False, False, True])),
                 'idirs': draw(st.sampled_from([['inc_a', 'inc_b'], ['inc_b', 'inc_a', 'inc_a'], ['inc_a', 'inc_b', 'inc_c'],
                                                ['inc_a', '{ROOT}/inc_a', 'inc_b'], ['{ROOT}/inc_b', 'inc_a', './inc_b'],
                                                ['inc_a', 'inc_b', '{ROOT}']]))}
@@ -94,7 +95,7 @@ def _cases(draw, tier):
                 'idirs': draw(st.sampled_from([['inc_a', 'inc_b'], ['inc_b', 'inc_a', 'inc_b'], ['inc_a', '{ROOT}/inc_a', 'inc_b'],
                                                ['inc_b', '{ROOT}', 'inc_a']]))}
     cfg = draw(G.layout_isa(zones=False))
-    why = draw(st.sampled_from(['twice-direct', 'twice-nested', 'diamond', 'missing', 'ambiguous', 'self',
+    why = draw(st.sampled_from(['twice-direct', 'twice-nested', 'diamond', 'missing', 'ambiguous', 'self', 'ambiguous-link-to-the-other',
                                  'ambiguous-copy-next-to-includer', 'ambiguous-copy-next-to-nested-includer',
                                  'includer-file-label-used-in-included', 'included-file-label-used-in-includer',
                                  'includer-file-label-used-in-nested', 'inert-twice', 'inert-missing']))
@@ -148,7 +149,14 @@ def strategy(tier):
     return _cases(tier)
 
 
-def _argv(fname, idirs, lo=None, hi=None):
+def _into_subdir(files):
+    """The main file and everything stored next to it move into proj/; the include directories named on the command line
+    stay where they are (a relative -I names a directory relative to where the tool is started)."""
+    for k in [k for k in files if k.endswith('.asm') and '/' not in k]:
+        files['proj/' + k] = files.pop(k)
+
+
+def _argv(fname, idirs, lo=None, hi=None, main='main.asm'):
     argv = ['compile', '-c', fname, '-o', 'out.bin']
     for d in idirs:
         argv += ['-I', d]
@@ -156,7 +164,7 @@ def _argv(fname, idirs, lo=None, hi=None):
         argv += ['-s', str(lo)]
     if hi is not None:
         argv += ['-e', str(hi)]
-    return argv + ['main.asm']
+    return argv + [main]
 
 
 def boundary_features(items):
@@ -248,15 +256,22 @@ def execute(case, ctx):
             f[fname] = text
             f.update(extra_dirs)
         linked = _link_some(split, case.get('links', 0))
-        argv = _argv(fname, case['idirs'], case['lo'])
+        main = 'main.asm'
+        if case.get('subdir'):
+            _into_subdir(flat)
+            _into_subdir(split)
+            main = 'proj/main.asm'
+        argv = _argv(fname, case['idirs'], case['lo'], main=main)
         r1 = runner.run_forked(argv, flat)
         r2 = runner.run_forked(argv, split)
         feats = boundary_features(case['split'])
+        if case.get('subdir') and feats:
+            feats.add('main-file-in-a-subdirectory')
         if linked:
             feats.add('included-through-a-symbolic-link')
-        if any(k.endswith('main.asm') and k != 'main.asm' for k in split):
+        if any(k.endswith('main.asm') and k not in ('main.asm', 'proj/main.asm') for k in split):
             feats.add('included-name-ends-in-main-file-name')
-        detail = {'unsplit': flat['main.asm'], 'split': {k: v for k, v in split.items() if k.endswith('.asm')},
+        detail = {'unsplit': flat[main], 'split': {k: v for k, v in split.items() if k.endswith('.asm')},
                   'argv': argv, 'run_unsplit': r1.brief(), 'run_split': r2.brief(), 'features': sorted(feats)}
         findings = []
         if r1.klass == 'timeout' or r2.klass == 'timeout':
@@ -268,7 +283,7 @@ def execute(case, ctx):
             findings.append(Finding('C17/paste/image-differs/' + tag, detail))
         nt = bool(feats) and r1.klass == 'accepted'
         return Outcome(findings, nt, ['kind:paste', 'outcome:' + r1.klass] + ['feat:' + f for f in sorted(feats)], 2,
-                       sample={'unsplit': flat['main.asm'], 'split': detail['split'], 'argv': argv})
+                       sample={'unsplit': flat[main], 'split': detail['split'], 'argv': argv})
     files = G.render_program(case['items'])
     files[fname] = text
     files.update(extra_dirs)
@@ -278,6 +293,8 @@ def execute(case, ctx):
             del files['inc_a/common.asm']
         if why == 'ambiguous':
             files['inc_b/common.asm'] = '.byte 9\n'
+        if why == 'ambiguous-link-to-the-other':
+            files['inc_b/common.asm'] = ('symlink', 'inc_a/common.asm')   # the name is found in two search directories
         if why == 'ambiguous-copy-next-to-includer':
             files['common.asm'] = '.byte 9\n'              # next to main.asm, and in inc_a
         if why == 'ambiguous-copy-next-to-nested-includer':
